@@ -1,3 +1,75 @@
 """vcheck configuration of work group C: PROPS = {"Cxx": {"families": [fam("name", quick_n, thorough_n)], "defects": ["Dn"]}}"""
 
-PROPS = {}
+PROPS = {
+    "C07": {
+        "families": [
+            fam("c07.prio", 3000, 20000),
+            # block pairs of the 2304-rule pool; thorough = all 48x48 blocks = all 5.3 M ordered pairs (seed-independent)
+            fam("c07.matrix", 40, 1000000, seeds=1),
+            # laws computed in Go; n >= 1000000 = exhaustive over the pool
+            fam("c07.laws", 1500, 1000000, seeds=1),
+            # option bits rule text cannot set ($redirect, $replace, $cookie, $csp), set by the harness through reflection
+            fam("c07.priox", 1000, 15000),
+        ],
+        "defects": ["D6"],
+        "rule": "c07.prio: ordered pairs over the 2304-rule feature pool + extras + generated rules (incl. a,a and rule vs rule+modifier); "
+                "c07.matrix: 48x48 blocks of the pool's IsHigherPriority matrix (thorough: the whole matrix); c07.laws: irreflexivity, "
+                "asymmetry, transitivity of > and of ties, add-modifier, selection maximality computed in Go; distinct by hash of the op input; "
+                "non-trivial when the answer is not F",
+        "explanation": "$redirect is read by IsHigherPriority but cannot be set from rule text on this tree; the theorems cover it, and "
+                       "c07.priox compares the Go function with the model on rule objects whose option mask the harness patched through "
+                       "reflection (nothing in /repo is changed).",
+    },
+    "C08": {
+        "families": [
+            fam("c08.negates", 2500, 40000),
+            fam("c08.removebad", 2500, 40000),
+            fam("c08.engine", 1500, 20000),
+            fam("c08.rewrites", 1000, 20000),
+        ],
+        "defects": ["D7", "D14"],
+        "rule": "c08.negates: (x$badfilter, x), near-twins differing in exactly one modifier value (incl. $denyallow, $dnstype, $dnsrewrite, "
+                "$client/$ctag order), reversed and random pairs through VerifNegatesBadfilter; c08.removebad: base lists + 1-4 twin pairs at "
+                "random positions + near-twins through VerifRemoveBadfilterRules (survivor indexes, in order); c08.engine: verdict(L+twins) == "
+                "verdict(L) through NetworkEngine.Match and DNSEngine.MatchRequest, rules split over two lists at a random point; "
+                "distinct by hash of the op input; non-trivial when the answer is not F/()",
+    },
+    "C09": {
+        "families": [
+            fam("c09.rewrites", 3000, 40000),
+            # n = maximal length enumerated EXHAUSTIVELY over the 24-shape alphabet (quick: all 346 201 sequences of
+            # length 0..4; thorough: all 8 308 825 of length 0..5 plus all 2 985 984 of length 6 over a 12-shape sub-alphabet)
+            fam("c09.batch", 4, 5, seeds=1),
+        ],
+        "defects": ["D8"],
+        "coverage_extra": {"exhaustive": True},
+        "rule": "c09.rewrites: sampled sequences (length 0-14) of $dnsrewrite rules over 24 values x important x exception (plus rules "
+                "without $dnsrewrite), half of them through a real DNSEngine (texts parsed, engine decides the order of NetworkRules), "
+                "answer = indexes of DNSRewrites() in order; c09.batch: exhaustive enumeration of all sequences up to the given length over "
+                "the 24-shape alphabet (A/CNAME/RCODE/MX x important x exception, TXT/HTTPS/SRV rule+exception, the two empty-valued "
+                "exceptions), 1000 sequences per line; distinct by hash of the op input",
+        "explanation": "Length 6 over all 24 shapes (191 M sequences) does not fit the time budget of the line protocol; it is enumerated over "
+                       "a 12-shape sub-alphabet. The theorem c09 covers every length.",
+    },
+    "C06": {
+        "families": [
+            fam("c06.result", 1500, 25000),
+            fam("c06.dnsbasic", 1500, 25000),
+            fam("c06.engine", 1000, 15000),
+            # $replace/$cookie/$csp/$redirect bits set by the harness through reflection: go vs MODEL only
+            fam("c06.resultx", 1000, 15000),
+        ],
+        "defects": ["D5"],
+        "rule": "multisets (size 0-6 rules, 0-3 source rules, with badfilter twins) over a pool realising all combinations of {exception, "
+                "$important, $domain-specific, $document/$urlblock/$genericblock/$elemhide, $dnsrewrite, $badfilter, $stealth}, each in "
+                "1-3 permutations: c06.result/c06.dnsbasic = class of NewMatchingResult(...).GetBasicResult() / GetDNSBasicRule (go vs model "
+                "vs reference class), c06.pick/c06.dnspick = which rule is returned (go vs model), assert c06.*perm = all permutations "
+                "agree; c06.engine = the same through Engine.MatchRequest / DNSEngine.MatchRequest over 1-3 rule lists (rules = what "
+                "MatchAll returned); thorough adds all singletons and all (rule, source rule) / (rule, rule) pairs of the pool; "
+                "distinct by hash of the op input; non-trivial when the answer is not none",
+        "explanation": "$replace/$cookie/$csp cannot be set from rule text on this tree: the switch arms for them and the $replace early "
+                       "return are covered by the theorems (c06_web_all, c06_dns_all) and compared with the MODEL only (c06.resultx, option "
+                       "masks patched by the harness through reflection): with an effective $replace rule the code returns nil whatever "
+                       "else matches, which is not the documented precedence, so c06_web/c06_dns carry the hypothesis 'no $replace bit'.",
+    },
+}
